@@ -234,6 +234,25 @@ func genDocument(s *simrt.Sim, objRoot bool) (any, string) {
 		} else {
 			c = l
 		}
+	case size == 3:
+		// exact size: the serialised text is padded to a buffer-size boundary (minus one, exactly, plus one)
+		target := []int{512, 4096, 8192, 32768, 65536, 131072}[s.Draw("exact-size", 6)] + s.Draw("exact-delta", 3) - 1
+		var base any
+		if objRoot {
+			base = at.NewObject("pad", "", "n", 1, "l", at.NewList(true, nil))
+		} else {
+			base = at.NewList("", 1, at.NewObject("k", "v"))
+		}
+		cur := 0
+		switch x := base.(type) {
+		case at.List:
+			cur = len(x.String())
+			x.Replace(0, strings.Repeat("p", target-cur))
+		case at.Object:
+			cur = len(x.String())
+			x.Set("pad", strings.Repeat("p", target-cur))
+		}
+		c = base
 	case size == 2:
 		// deep nesting
 		var inner any = at.NewList(1)
